@@ -276,13 +276,18 @@ impl<'a, I: Read, O: Write> VisitProgram for ExecStmt<'a, I, O> {
             .visit_expression(&i.condition)?
             .0
             .is_truthy();
-        self.env.borrow_mut().push_scope();
-        if condition {
-            self.visit_block(&i.then_block)?;
-        } else if let Some(else_block) = &i.else_block {
-            self.visit_block(else_block)?;
+        // an if whose condition fails and that has no else runs no block: no scope, and the pronoun
+        // keeps its referent (leaving a scope clears it)
+        let block = if condition {
+            Some(&i.then_block)
+        } else {
+            i.else_block.as_ref()
+        };
+        if let Some(block) = block {
+            self.env.borrow_mut().push_scope();
+            self.visit_block(block)?;
+            self.env.borrow_mut().pop_scope();
         }
-        self.env.borrow_mut().pop_scope();
         Ok(())
     }
 
